@@ -1,6 +1,7 @@
 //! Conformance harness for the TLA+ specifications in /verif/specs.
 //! Sub-commands are selected by the first argument; see /verif/check.
 mod bench;
+mod clones;
 mod queue;
 mod seqds;
 mod simcore;
@@ -18,6 +19,7 @@ fn main() {
         "seqds" => seqds::main(&args[2..]),
         "bench" => bench::main(&args[2..]),
         "queue" => queue::main(&args[2..]),
+        "clones" => clones::main(&args[2..]),
         "task" => taskeng::main(&args[2..]),
         "timecell" => timecell::main(&args[2..]),
         other => {
